@@ -255,6 +255,16 @@ def boundary_conventions(report, results, coverage):
                 flags = [bool(vec.is_timelike(tol)), bool(vec.is_lightlike(tol)), bool(vec.is_spacelike(tol))]
                 if sum(flags) > 1:
                     bad.append(("causal predicates overlap", repr(vec), tol, flags))
+        for mk4 in (lambda: vector.obj(x=1e4, y=0.0, z=0.0, tau=-1e-5), lambda: vector.obj(x=1e4, y=0.0, z=0.0, tau=1e-5), lambda: vector.obj(rho=3e3, phi=0.5, eta=2.0, tau=-1e-4),
+                    lambda: vector.array({"x": numpy.array([1e4, 2e5]), "y": numpy.zeros(2), "z": numpy.zeros(2), "tau": numpy.array([-1e-5, -3e-4])})):
+            v4 = mk4()
+            for tol in (0, 1e-13, 1e-11, 1e-9, 1e-6):
+                n += 1
+                fl = [numpy.asarray(v4.is_timelike(tol)), numpy.asarray(v4.is_lightlike(tol)), numpy.asarray(v4.is_spacelike(tol))]
+                if bool(numpy.any(fl[0].astype(int) + fl[1].astype(int) + fl[2].astype(int) > 1)):
+                    bad.append(("causal predicates overlap (float64, tau-stored, extreme magnitudes)", repr(v4), tol, [f.tolist() for f in fl]))
+        for vec in (vector.obj(x=1, y=0, z=0, t=1), vector.obj(x=0, y=0, z=3, t=3), vector.obj(x=0, y=0, z=0, t=0.0),
+                    vector.obj(x=3, y=4, z=0, t=5), vector.obj(x=1, y=0, z=0, t=2), vector.obj(x=1, y=0, z=0, t=0.5)):
             if vec.t > 0 and vec.t ** 2 == vec.mag2:
                 n += 1
                 if vec.beta != 1:
